@@ -877,7 +877,7 @@ uint32_t adfFileRead ( struct AdfFile * const file,
 
     unsigned blockSize = file->volume->datablockSize;
 /*puts("adfReadFile");*/
-    if (file->pos+n > file->fileHdr->byteSize)
+    if ( n > file->fileHdr->byteSize - file->pos )   /* (pos + n can wrap) */
         n = file->fileHdr->byteSize - file->pos;
 
     uint8_t * const dataPtr = ( isOFS ( file->volume->dosType ) ) ?
